@@ -19,10 +19,17 @@ Qed.
 (* the events the invariants speak about: state writes and timeout firings *)
 Definition is_trans (x : ev) : bool := match x with ETrans _ _ _ _ _ => true | EFire _ _ _ _ _ => true | _ => false end.
 Definition ntasks (e : eng) := length (tasks e).
+(* a message reports the state its task has at that moment, and that state is neither pending nor running *)
+Definition msg_ok (e : eng) (x : ev) : bool :=
+  match x with EMsg i s _ _ => is s (st e i) && negb (is s SPending) && negb (is s SRunning) | _ => true end.
+Lemma msg_ok_st e e' x : (forall t, st e' t = st e t) -> msg_ok e' x = msg_ok e x.
+Proof. intros H. destruct x; simpl; auto. now rewrite H. Qed.
+Lemma forallb_msg_ok_st e e' l : (forall t, st e' t = st e t) -> forallb (msg_ok e') l = forallb (msg_ok e) l.
+Proof. intros H. induction l as [|x l IH]; simpl; auto. now rewrite IH, (msg_ok_st e e' x H). Qed.
 Definition ext (e e' : eng) : Prop :=
   (forall t, st e' t = st e t /\ t_err (tk e' t) = t_err (tk e t) /\ t_catch_done (tk e' t) = t_catch_done (tk e t) /\
              t_tmo_done (tk e' t) = t_tmo_done (tk e t) /\ t_start (tk e' t) = t_start (tk e t)) /\
-  (exists l, trace e' = trace e ++ l /\ forallb (fun x => negb (is_trans x)) l = true) /\
+  (exists l, trace e' = trace e ++ l /\ forallb (fun x => negb (is_trans x)) l = true /\ forallb (msg_ok e) l = true) /\
   ntasks e <= ntasks e' /\
   (forall t, t < ntasks e -> t_prev (tk e' t) = t_prev (tk e t)) /\
   (forall t, ntasks e <= t -> t < ntasks e' -> exists p, t_prev (tk e' t) = Some p /\ p < t) /\
@@ -34,9 +41,10 @@ Proof.
 Qed.
 Lemma ext_trans e1 e2 e3 : ext e1 e2 -> ext e2 e3 -> ext e1 e3.
 Proof.
-  intros (H1 & (l1 & T1 & F1) & L1 & K1 & N1 & Q1) (H2 & (l2 & T2 & F2) & L2 & K2 & N2 & Q2). split; [|split; [|split; [|split; [|split]]]].
+  intros (H1 & (l1 & T1 & F1 & M1) & L1 & K1 & N1 & Q1) (H2 & (l2 & T2 & F2 & M2) & L2 & K2 & N2 & Q2). split; [|split; [|split; [|split; [|split]]]].
   - intros t. destruct (H1 t) as (a & b & c & d & f), (H2 t) as (a' & b' & c' & d' & f'). repeat split; congruence.
-  - exists (l1 ++ l2). rewrite T2, T1, app_assoc. split; auto. rewrite forallb_app, F1, F2. reflexivity.
+  - exists (l1 ++ l2). rewrite T2, T1, app_assoc. split; auto. rewrite !forallb_app, F1, F2, M1. split; [reflexivity|].
+    rewrite <- (forallb_msg_ok_st e1 e2 l2); [exact M2 | intros t; apply H1].
   - lia.
   - intros t Ht. rewrite K2 by lia. now apply K1.
   - intros t Ht1 Ht3. destruct (Nat.lt_ge_cases t (ntasks e2)).
@@ -47,7 +55,7 @@ Proof.
 Qed.
 
 (* ---- with_* : only the named field changes ---- *)
-Ltac ext_triv := split; [intros t; repeat split; reflexivity | split; [exists []; simpl; now rewrite app_nil_r | split; [unfold ntasks; simpl; lia | split; [intros; reflexivity | split; [unfold ntasks; simpl; intros; lia | intros; left; assumption]]]]].
+Ltac ext_triv := split; [intros t; repeat split; reflexivity | split; [exists []; simpl; rewrite app_nil_r; auto | split; [unfold ntasks; simpl; lia | split; [intros; reflexivity | split; [unfold ntasks; simpl; intros; lia | intros; left; assumption]]]]].
 Lemma ext_with_rows e r : ext e (with_rows e r). Proof. ext_triv. Qed.
 Lemma ext_with_pstate e s : ext e (with_pstate e s). Proof. ext_triv. Qed.
 Lemma ext_with_prow e s : ext e (with_prow e s). Proof. ext_triv. Qed.
@@ -55,9 +63,9 @@ Lemma ext_with_exn e b : ext e (with_exn e b). Proof. ext_triv. Qed.
 Lemma ext_with_clock e c : ext e (with_clock e c). Proof. ext_triv. Qed.
 Lemma ext_oof e : ext e (out_of_fuel e). Proof. ext_triv. Qed.
 Lemma ext_with_nodes e ns : ext e (with_nodes e ns). Proof. ext_triv. Qed.
-Lemma ext_add_ev e x : is_trans x = false -> ext e (add_ev e x).
+Lemma ext_add_ev e x : is_trans x = false -> msg_ok e x = true -> ext e (add_ev e x).
 Proof.
-  intros H. split; [intros t; repeat split; reflexivity|]. split; [exists [x]; simpl; now rewrite H|].
+  intros H M. split; [intros t; repeat split; reflexivity|]. split; [exists [x]; simpl; now rewrite H, M|].
   split; [unfold ntasks; simpl; lia | split; [intros; reflexivity | split; [unfold ntasks; simpl; intros; lia | intros; left; assumption]]].
 Qed.
 
@@ -75,7 +83,7 @@ Proof.
   - intros t. unfold st. rewrite tk_tmod.
     destruct (Nat.eqb_spec t i); simpl; [subst|repeat split; reflexivity].
     destruct (Nat.ltb i (length (tasks e))); [|repeat split; reflexivity]. destruct (K (tk e i)) as (a & b & c & d & g & h). auto.
-  - exists []. simpl. now rewrite app_nil_r.
+  - exists []. simpl. rewrite app_nil_r. auto.
   - rewrite ntasks_tmod; lia.
   - intros t Ht. rewrite tk_tmod. destruct (Nat.eqb_spec t i); simpl; [subst|reflexivity].
     destruct (Nat.ltb i (length (tasks e))); [|reflexivity]. apply K.
@@ -113,7 +121,7 @@ Proof.
   intros Hp. split; [|split; [|split; [|split; [|split]]]].
   - intros t. unfold st. rewrite tk_sched. destruct (Nat.eqb_spec t (length (tasks e))) as [->|]; auto.
     unfold tk. rewrite nth_overflow by lia. repeat split; reflexivity.
-  - exists [ENew (length (tasks e)) n (Some p) (clock e)]. split; reflexivity.
+  - exists [ENew (length (tasks e)) n (Some p) (clock e)]. repeat split; reflexivity.
   - rewrite ntasks_sched; lia.
   - intros t Ht. rewrite tk_sched. unfold ntasks in Ht. destruct (Nat.eqb_spec t (length (tasks e))); [lia | reflexivity].
   - rewrite ntasks_sched. intros t H1 H2. assert (t = ntasks e) by lia. subst. exists p.
@@ -218,8 +226,12 @@ Lemma tk_set_state site e i s t :
           t_hooks := t_hooks x; t_data := t_data x; t_exposed := t_exposed x |})
     else tk e t.
 Proof.
-  unfold set_state. destruct (is_completed s && Nat.eqb i 0); unfold tk; simpl; apply upd_nth.
+  unfold set_state. destruct (Nat.ltb i (length (tasks e))) eqn:El; simpl.
+  - destruct (is_completed s && Nat.eqb i 0); unfold tk; simpl; rewrite upd_nth, El; reflexivity.
+  - now rewrite andb_false_r.
 Qed.
+Lemma set_state_oob site e i s : length (tasks e) <= i -> set_state site e i s = e.
+Proof. intros H. unfold set_state. apply Nat.ltb_ge in H. now rewrite H. Qed.
 Lemma st_set_state_other site e i s t : t <> i -> st (set_state site e i s) t = st e t.
 Proof. intros H. unfold st. rewrite tk_set_state. destruct (Nat.eqb_spec t i); [contradiction | reflexivity]. Qed.
 Lemma st_set_state_same site e i s : st (set_state site e i s) i = s \/ (length (tasks e) <= i /\ st (set_state site e i s) i = st e i).
@@ -227,16 +239,17 @@ Proof.
   unfold st. rewrite tk_set_state, Nat.eqb_refl. simpl.
   destruct (Nat.ltb_spec i (length (tasks e))); [left; reflexivity | right; auto].
 Qed.
-Lemma trace_set_state site e i s : trace (set_state site e i s) = trace e ++ [ETrans i (st e i) s (clock e + 1)%Z site].
-Proof. unfold set_state. destruct (is_completed s && Nat.eqb i 0); reflexivity. Qed.
+Lemma trace_set_state site e i s : i < length (tasks e) ->
+  trace (set_state site e i s) = trace e ++ [ETrans i (st e i) s (clock e + 1)%Z site].
+Proof. intros H. unfold set_state. apply Nat.ltb_lt in H. rewrite H. simpl. destruct (is_completed s && Nat.eqb i 0); reflexivity. Qed.
 Lemma st_oob e i : length (tasks e) <= i -> st e i = SNone.
 Proof. intros H. unfold st, tk. now rewrite nth_overflow. Qed.
 
 Lemma ntasks_set_state site e i s : ntasks (set_state site e i s) = ntasks e.
-Proof. unfold ntasks, set_state. destruct (_ && _); simpl; apply upd_length. Qed.
+Proof. unfold ntasks, set_state. destruct (negb _); [reflexivity|]. destruct (_ && _); simpl; apply upd_length. Qed.
 Lemma prev_set_state site e i s t : t_prev (tk (set_state site e i s) t) = t_prev (tk e t).
 Proof. rewrite tk_set_state. destruct (Nat.eqb_spec t i); simpl; [subst|reflexivity]. destruct (Nat.ltb _ _); reflexivity. Qed.
 Lemma W_set_state site e i s : W e -> W (set_state site e i s).
 Proof. intros HW t Ht. rewrite ntasks_set_state in Ht. rewrite prev_set_state. now apply HW. Qed.
 Lemma queue_set_state site e i s : queue (set_state site e i s) = queue e.
-Proof. unfold set_state. destruct (_ && _); reflexivity. Qed.
+Proof. unfold set_state. destruct (negb _); [reflexivity|]. destruct (_ && _); reflexivity. Qed.
